@@ -250,6 +250,48 @@ def check(run):
     if not ok:
         run.violation("S", f.where, "the r-tree built by ray_triangle_id does not index the triangles that are tested", key=key_of("C12-S", "tree"))
 
+    # ------------------------------------------------------------------ S2 inclusion tests look at all three barycentric coordinates
+    run.rule("S2", "wherever barycentric coordinates decide `inside the triangle`, the range test covers all three of them (a column subset accepts the mirror image beyond one edge)")
+    from ..dag import Values
+    n_s2 = 0
+    for fb in ix.all_functions:
+        if fb.module.name not in ("trimesh.proximity", "trimesh.ray.ray_triangle", "trimesh.ray.ray_util", "trimesh.ray.ray_pyembree"):
+            continue
+        if not any(isinstance(c_, ast.Call) and ast.unparse(c_.func).split(".")[-1] == "points_to_barycentric" for c_ in ast.walk(fb.node)):
+            continue
+        Vb = Values(ix, fb, abstract={"trimesh.triangles.points_to_barycentric": "BARY"})
+        roots = []
+        for st_ in ast.walk(fb.node):
+            if isinstance(st_, (ast.Assign, ast.AugAssign, ast.Return, ast.Expr)) and getattr(st_, "value", None) is not None and Vb.pv.cfg.nodes_of.get(id(st_)):
+                roots.append(Vb.value(st_.value, st_))
+            elif isinstance(st_, (ast.If, ast.While)) and Vb.pv.cfg.nodes_of.get(id(st_)):
+                roots.append(Vb.value(st_.test, st_))
+        tests = []
+        for root in roots:
+            for tpl in ("_e_X < _e_b", "_e_X > _e_b", "_e_X <= _e_b", "_e_X >= _e_b"):
+                for env, _ in Vb.dag.find(tpl, root):
+                    for side in ("_e_X", "_e_b"):
+                        n_ = Vb.dag.node(env[side])
+                        if isinstance(n_, ast.Name) and n_.id == "BARY":
+                            tests.append((env[side], True))
+                        elif isinstance(n_, ast.Subscript) and isinstance(Vb.dag.node(n_.value) if isinstance(n_.value, ast.Name) else n_.value, ast.Name) \
+                                and (Vb.dag.node(n_.value) if isinstance(n_.value, ast.Name) else n_.value).id == "BARY":
+                            sl = n_.slice
+                            sl = Vb.dag.node(sl) if isinstance(sl, ast.Name) else sl
+                            cols = isinstance(sl, ast.Tuple) and len(sl.elts) == 2 and not (isinstance(sl.elts[1], ast.Slice) and sl.elts[1].lower is None and sl.elts[1].upper is None and sl.elts[1].step is None)
+                            tests.append((ast.unparse(n_), not cols))
+        seen_ = set()
+        for txt_, whole in tests:
+            if txt_ in seen_:
+                continue
+            seen_.add(txt_)
+            n_s2 += 1
+            run.instance("S2", fb.where, f"{fb.qualname}: range test on `{Vb.text(txt_, 1, 60)}` covers all coordinates: {whole}", whole)
+            if not whole:
+                run.violation("S2", fb.where, f"`{fb.qualname}` decides `inside the triangle` from `{Vb.text(txt_, 1, 60)}`, a subset of the barycentric coordinates: the remaining "
+                                              f"coordinate (1 - the others) is never bounded, so points beyond the opposite edge count as inside", key=key_of("C12-S2", fb.qualname))
+    run.floor("barycentric range tests", n_s2, 2)
+
     # ------------------------------------------------------------------ P pruning boxes
     f = ix.func("trimesh.ray.ray_triangle:ray_bounds")
     # one canonical term for the returned box (sa/provenance.py, ssa mode: `x += e` and `x[i] = e` are definitions, locals
